@@ -1,8 +1,151 @@
+import Martian.Equiv
+import Gen.Facts
 import Driver.Util
 
-/-! Line-protocol handler for property C15 (stub: replaced when the model exists). -/
-namespace Driver.C15
+/-! Line-protocol handler for property C15.
 
-def handle (_op : String) (_args : List String) : Option String := none
+Program encoding (one argument, tokens separated by single spaces, prefix form;
+`<k>` = hex of the bytes, `-` = empty):
+  exp      ::= n | s <k> | b 0|1 | i <int> | fw <int> | fb <nat> | r <kind> <k> <k>
+             | sp exp | a <n> exp^n | m <n> (<k> exp)^n
+  param    ::= <k:id> <k:tname> <arrayDim> <mapDim> <fileKind> <k:outName>
+  binds    ::= <n> (<k> exp)^n
+  mods     ::= <local> <preflight> <volatile> <hasTable> (0 | 1 exp)
+  call     ::= <k:id> <k:decId> binds mods
+  callable ::= S <split> <n> param^n <n> param^n
+             | P <n> param^n <n> param^n <n> call^n binds
+  prog     ::= <n> (<k:name> callable)^n call
+-/
+namespace Driver.C15
+open Martian.Equiv Martian.SortKeys Driver
+
+abbrev P := StateT (List String) Option
+
+def tok : P String := do
+  match (← get) with
+  | [] => failure
+  | t :: r => set r; pure t
+
+def nat : P Nat := do
+  match (← tok).toNat? with
+  | some n => pure n
+  | none => failure
+
+def int : P Int := do
+  match (← tok).toInt? with
+  | some n => pure n
+  | none => failure
+
+def bool : P Bool := do
+  match (← tok) with
+  | "0" => pure false
+  | "1" => pure true
+  | _ => failure
+
+def key : P Key := do
+  match bytesOfHex (← tok) with
+  | some b => pure (b.map UInt8.toNat)
+  | none => failure
+
+def rep {α : Type} (p : P α) : Nat → P (List α)
+  | 0 => pure []
+  | n + 1 => do let x ← p; let r ← rep p n; pure (x :: r)
+
+partial def exp : P Exp := do
+  match (← tok) with
+  | "n" => pure (.atom .null)
+  | "s" => do pure (.atom (.str (← key)))
+  | "b" => do pure (.atom (.bool (← bool)))
+  | "i" => do pure (.atom (.int (← int)))
+  | "fw" => do pure (.atom (.float (.whole (← int))))
+  | "fb" => do pure (.atom (.float (.bits (← nat))))
+  | "r" => do let k ← nat; let i ← key; let o ← key; pure (.atom (.ref k i o))
+  | "sp" => do pure (.split (← exp))
+  | "a" => do
+    let n ← nat
+    let xs ← rep exp n
+    pure (xs.foldr Exp.acons .anil)
+  | "m" => do
+    let n ← nat
+    let kvs ← rep (do let k ← key; let v ← exp; pure (k, v)) n
+    pure (kvs.foldr (fun p r => Exp.mcons p.1 p.2 r) .mnil)
+  | _ => failure
+
+def param : P (Key × Param) := do
+  let id ← key; let t ← key; let a ← nat; let m ← nat; let f ← nat; let o ← key
+  pure (id, { tname := t, arrayDim := a, mapDim := m, fileKind := f, outName := o })
+
+def binds : P (List (Key × Exp)) := do
+  let n ← nat
+  rep (do let k ← key; let v ← exp; pure (k, v)) n
+
+def mods : P Mods := do
+  let l ← bool; let p ← bool; let v ← bool; let t ← bool
+  let d ← (do if (← bool) then pure (some (← exp)) else pure none)
+  pure { isLocal := l, preflight := p, volatile := v, hasTable := t, disabled := d }
+
+def call : P Call := do
+  let id ← key; let dec ← key; let b ← binds; let m ← mods
+  pure { id := id, decId := dec, binds := b, mods := m }
+
+def params : P (List (Key × Param)) := do
+  let n ← nat
+  rep param n
+
+def callable : P Callable := do
+  match (← tok) with
+  | "S" => do let s ← bool; let i ← params; let o ← params; pure (.stage s i o)
+  | "P" => do
+    let i ← params; let o ← params
+    let n ← nat
+    let cs ← rep call n
+    let r ← binds
+    pure (.pipeline i o cs r)
+  | _ => failure
+
+def prog : P Prog := do
+  let n ← nat
+  let t ← rep (do let k ← key; let c ← callable; pure (k, c)) n
+  let c ← call
+  pure { tab := t, call := c }
+
+def parseAll {α : Type} (p : P α) (s : String) : Option α :=
+  match p.run (s.splitOn " ") with
+  | some (x, []) => some x
+  | _ => none
+
+def lockOp (s : String) : Option LockOp :=
+  match s.toList with
+  | 'L' :: r => (String.ofList r).toNat?.map LockOp.lock
+  | 'U' :: r => (String.ofList r).toNat?.map LockOp.unlock
+  | 'S' :: r => (String.ofList r).toNat?.map LockOp.signal
+  | _ => none
+
+def lockTrace : LockState → List LockOp → List String → Option (List String)
+  | s, [], acc => some (acc.reverse ++ [boolStr s.lockFile, toString s.holders.length])
+  | s, op :: r, acc =>
+    if disciplined s op then
+      let (s', ok) := lockStep s op
+      lockTrace s' r ((if ok then "1" else "0") :: acc)
+    else none
+
+def handle (op : String) (args : List String) : Option String :=
+  match op, args with
+  | "equiv", [a, b] => do
+    let a ← parseAll prog a
+    let b ← parseAll prog b
+    pure (" ".intercalate [boolStr (equivalentCall Gen.c15SelfCompare a b),
+      boolStr (equivalentCall false a b), boolStr a.wf, boolStr b.wf])
+  | "expequal", [a, b] => do
+    let a ← parseAll exp a
+    let b ← parseAll exp b
+    pure (" ".intercalate [boolStr (a.equal b), boolStr a.wf, boolStr b.wf])
+  | "lock", [ops] => do
+    let ops ← if ops == "." then some [] else (ops.splitOn ",").mapM lockOp
+    match lockTrace lockInit ops [] with
+    | some r => pure (" ".intercalate r)
+    | none => pure "undisciplined"
+  | "selfcompare", [] => pure (boolStr Gen.c15SelfCompare)
+  | _, _ => none
 
 end Driver.C15
